@@ -110,5 +110,9 @@ def custom_dbs():
         t = tdef()
         t.add_context_category('verif-custom', prepend=True, macros=[MacroTextSpec('why', discard=True), MacroTextSpec('weblink', simplify_repl='%s <%s>')],
                                environments=[EnvironmentTextSpec('derivation', discard=False)])
+        # a second category registered IN FRONT OF an existing one by name (not with prepend=True): it re-declares
+        # \\mathrm (defined in latex-base) and \\textsc (defined in latex-approximations) as discarded
+        t.add_context_category('verif-discard-a', insert_before='latex-base', macros=[MacroTextSpec('mathrm', discard=True)])
+        t.add_context_category('verif-discard-b', insert_before='latex-approximations', macros=[MacroTextSpec('textsc', discard=True)])
         _custom.append((w, t))
     return _custom[0]
